@@ -65,7 +65,7 @@ func loadProgram(dirs []string) (*sym.Program, error) {
 			return nil, err
 		}
 		for _, en := range ents {
-			if en.IsDir() || !strings.HasSuffix(en.Name(), ".go") {
+			if en.IsDir() || !strings.HasSuffix(en.Name(), ".go") || strings.HasSuffix(en.Name(), "_native.go") {
 				continue
 			}
 			b, err := os.ReadFile(filepath.Join(hd, en.Name()))
@@ -107,6 +107,9 @@ func cmdRun(args []string) {
 	dbg := fs.Bool("debugpanic", false, "")
 	params := fs.String("params", "", "k=v,k=v")
 	relax := fs.Bool("relaxfdiv", false, "")
+	ufcalls := fs.String("uf", "", "comma separated function names treated as UF")
+	symmake := fs.Bool("symmake", false, "")
+	ufrem := fs.Bool("ufrem", false, "")
 	tmo := fs.Int("timeout", 60000, "")
 	fs.Parse(args)
 	rest := fs.Args()
@@ -138,6 +141,14 @@ func cmdRun(args []string) {
 	cfg.Backend = *backend
 	cfg.Params = map[string]int{}
 	cfg.RelaxFDiv = *relax
+	cfg.SymbolicMake = *symmake
+	cfg.UFRem = *ufrem
+	if *ufcalls != "" {
+		cfg.UFCalls = map[string]bool{}
+		for _, f := range strings.Split(*ufcalls, ",") {
+			cfg.UFCalls[f] = true
+		}
+	}
 	cfg.TimeoutMs = *tmo
 	if *dbg {
 		cfg.Params["debugpanic"] = 1
